@@ -11,6 +11,7 @@ import (
 func init() {
 	verifRegister("VerifC11Fail", VerifC11Fail)
 	verifRegister("VerifC11Cancel", VerifC11Cancel)
+	verifRegister("VerifC11Long", VerifC11Long)
 	verifRegister("VerifC11Root", VerifC11Root)
 }
 
@@ -188,4 +189,49 @@ func VerifC11Root() {
 		verifAssert(errors.Is(err, context.Canceled), "C11.ctxerr/precancelled-root")
 	}
 	verifAssert(verifQuiesce() == 0, "C11.noleak/root")
+}
+
+
+// VerifC11Long: cancellation in the middle of ONE long root block (a root with n+4 children, or a heading with that
+// many list rows: the splitter hands a block over only when the next root begins, so the whole document is a single
+// block). Under the read-yield policies every row read is a scheduling point and a possible cancellation instant. The
+// call returns; nothing is left behind; and what is left of the pipeline when the call returns does not go on
+// consuming the input: at most one more row is read after the return ("returns in bounded time ... no goroutine it
+// started remains" must not depend on how much input is still to come).
+func VerifC11Long() {
+	n := verifN() + 4
+	sharp := verifFlag("sharp")
+	var rows []string
+	if sharp {
+		rows = append(rows, verifRow("# ", 0, 0, verifName("name")))
+	} else {
+		rows = append(rows, verifRow("- ", 0, 0, verifName("name")))
+	}
+	for i := 0; i < n; i++ {
+		if sharp {
+			rows = append(rows, verifRow("- ", 0, 1, verifName("child")))
+		} else {
+			rows = append(rows, verifRow("  - ", 0, 1, verifName("child")))
+		}
+	}
+	k := verifChoose("cancelAt", 0, 24)
+	ctx := verifCtx(k)
+	rd := &verifReader{lines: rows, oneByOne: true}
+	w := newVerifWriter()
+	var err error
+	verifContext("C11.long")
+	if verifFlag("walk") {
+		err = WalkFromMarkdown(rd, func(*WalkerNode) error { return nil }, WithMassive(ctx))
+	} else {
+		err = OutputFromMarkdown(w, rd, WithMassive(ctx))
+	}
+	at := rd.rowsRead()
+	verifReach("C11.long.returns")
+	verifAssert(err == nil || errors.Is(err, context.Canceled), "C11.long.ctxerr.only")
+	left := verifQuiesce()
+	verifAssert(left == 0, "C11.noleak/long")
+	if !verifNative() {
+		// natively the instant of the return is not observable at row granularity; the amplified scenario measures it
+		verifAssert(rd.rowsRead()-at <= 1, "C11.stops/reader")
+	}
 }
